@@ -1099,6 +1099,30 @@ pub fn c11(c: &mut Ctx) {
             _ => {}
         }
     }
+    // is_alive() through strong handles never goes back from false to true (closed channels do not reopen)
+    for a in 0..h.actors.len() as u32 {
+        let mut dead_at: Option<u64> = None;
+        let mut samples: Vec<(u64, bool)> = h
+            .ops
+            .iter()
+            .filter(|o| o.a == Some(a) && o.tag == OpTag::IsAlive && matches!(o.via.as_str(), "ref" | "tellh" | "askh" | "ctl"))
+            .filter_map(|o| match o.res() {
+                Some(Res::Bool(b)) => Some((o.inv_seq, *b)),
+                _ => None,
+            })
+            .collect();
+        samples.sort();
+        for (s, b) in samples {
+            match (dead_at, b) {
+                (None, false) => dead_at = Some(s),
+                (Some(d), true) => {
+                    c.v("C11", "alive-again", s, format!("is_alive() of actor {a} returned true at seq {s} after it had returned false at seq {d}"));
+                    break;
+                }
+                _ => {}
+            }
+        }
+    }
     // upgrade
     for e in h.ev {
         if let EvKind::Handle { op: crate::world::HKind::Upgrade, h: slot, a: Some(a), ok, .. } = &e.k {
